@@ -442,6 +442,8 @@ void SGal3TangentBase<_Derived>::fillE(
 
   // small angle approx.
   if (theta_sq < Constants<Scalar>::eps) {
+    // E = I/2 + W/6 + O(theta^2)
+    E.noalias() += Scalar(1. / 6.) * so3.hat();
     return;
   }
 
